@@ -51,7 +51,7 @@ THEOREMS = [
     # counterexamples showing it cannot be dropped (within and outside the LAMMPS tilt limits), System.box_set from the source
     'C02.normSq_vecMul_le', 'C02.cover_true_nearest', 'C02.gram_true_nearest', 'C02.source_true_nearest_gram',
     'C02.cell_condition_needed', 'C02.sheared_condition_needed',
-    'C02.Source.gen_sysBoxSet_eq_model', 'C02.Source.gen_box_set_scale_default',
+    'C02.Source.gen_sysBoxSet_eq_model', 'C02.Source.gen_box_set_scale_default', 'C02.cleanVects_noop', 'C02.Source.gen_unchecked_reads',
 ]
 PARTIAL = {}
 RULE = ('cells: diagonal, rotated/left-handed mutually orthogonal, LAMMPS-triclinic, general 3x3 (det != 0), strongly '
@@ -1161,6 +1161,77 @@ def expected_pairs(a, b):
     return list(zip(a, b))
 
 
+CLEAN_THR = Fraction(1e-9)
+
+
+def clean_cell_exact(v):
+    """the `Box.vects` setter's clean-up, exactly (entries with |x| <= 1e-9 * largest |entry| become 0)."""
+    M = max(abs(Fraction(float(x))) for rw in v for x in rw)
+    return [[0.0 if abs(Fraction(float(x))) <= CLEAN_THR * M else float(x) for x in rw] for rw in v]
+
+
+def dust_cell(rng, v, exps=(-31, -33, -36, -40, -45)):
+    """`v` with 1-3 of its exactly-zero entries replaced by +-2^e of the largest entry (None if it has no zero entry)."""
+    zeros = [(i, j) for i in range(3) for j in range(3) if v[i][j] == 0]
+    if not zeros:
+        return None
+    M = max(abs(x) for rw in v for x in rw)
+    raw = [list(rw) for rw in v]
+    for i, j in rng.sample(zeros, min(len(zeros), rng.randint(1, 3))):
+        raw[i][j] = rng.choice([-1.0, 1.0]) * M * 2.0 ** rng.choice(exps)
+    return raw
+
+
+def correspond_clean(ctx, rng):
+    """op `clean`: what `Box(vects=v).vects`, `B.vects = v`, `B.set(vects=v)` and `S.box_set(vects=v)` store, against C01's
+    `cleanVects` as the C02 driver applies it (`stored`): residue entries on both sides of the threshold (2^-20 .. 2^-29 of
+    the largest entry kept, 2^-31 .. 2^-45 removed), on zero and on non-zero slots, every scale 2^k."""
+    import numpy as np
+    import atomman as am
+    cases = []
+    for _ in range(ctx.n(150, 1500)):
+        k = gen_scale_exp(rng)
+        v, o = gen_cell_scaled(rng, rng.choice(CELL_KINDS), 2.0 ** k)
+        M = max(abs(x) for rw in v for x in rw)
+        raw = [list(rw) for rw in v]
+        for _ in range(rng.randint(0, 3)):
+            i, j = rng.randrange(3), rng.randrange(3)
+            raw[i][j] = rng.choice([-1.0, 1.0]) * M * 2.0 ** rng.choice([-20, -25, -28, -29, -31, -33, -36, -40, -45, -60])
+        cases.append({'op': 'clean', 'v': raw, 'o': o, 'via': rng.choice(['init', 'attr', 'set', 'box_set'])})
+    outs = ctx.driver.ask_many([f"clean {_flat(c['v'])}" for c in cases])
+    for c, out in zip(cases, outs):
+        def run():
+            if c['via'] == 'init':
+                return am.Box(vects=np.array(c['v']), origin=c['o']).vects
+            b = am.Box()
+            if c['via'] == 'attr':
+                b.vects = c['v']
+            elif c['via'] == 'set':
+                b.set(vects=np.array(c['v']), origin=c['o'])
+            else:
+                s_ = am.System(atoms=am.Atoms(pos=[[0.0, 0.0, 0.0]]), box=b)
+                s_.box_set(vects=c['v'], origin=c['o'])
+                return s_.box.vects
+            return b.vects
+        kind, obs = _call(run)
+        ctx.stats.case('clean', (tuple(map(tuple, c['v'])), c['via']), nontrivial=c['v'] != clean_cell_exact(c['v']), sample=c)
+        want = clean_cell_exact(c['v'])
+        bad = None
+        if kind != 'ok':
+            bad = f'atomman raised {obs}'
+        elif out.startswith('err'):
+            bad = f'model: {out}'
+        else:
+            got = [float(x) for x in np.asarray(obs).ravel()]
+            mod = cm.unfrs(out)
+            if [Fraction(x) for x in got] != list(mod):
+                bad = f'stored cell {got} but the model of the setter (C01 cleanVects) gives {[float(x) for x in mod]}'
+            elif got != [x for rw in want for x in rw]:
+                bad = f'stored cell {got}, exact evaluation of the clean-up rule gives {want}'
+        if bad:
+            ctx.disagree('clean', f"cell {c['v']} set through {c['via']}: " + bad, {'op': 'clean', 'case': c})
+
+
 def gen_history(rng, oracle=False):
     """a history of 8-16 steps on 1-3 Box objects and 1-3 Systems; every value on the grid 2^k/64."""
     k = gen_scale_exp(rng)
@@ -1170,6 +1241,14 @@ def gen_history(rng, oracle=False):
     gsel = gen_oracle_sel if oracle else (lambda r, n, v, o: gen_sel(r, n, v, o, k == 0))
 
     def add(st):
+        # residue entries (second extender pass): 15 % of the cell-defining steps given by vectors carry, on entries that are
+        # exactly zero, values of 2^-31 .. 2^-45 of the largest entry - the `Box.vects` setter removes them (model: the driver
+        # applies C01's `cleanVects`), so the cell every later query sees is `v`; atomman and the driver get `vraw`.
+        if st['do'] in ('newbox', 'boxvects') or (st['do'] in ('boxset', 'sysboxset') and st.get('via') in ('vects', 'vects0', 'avect', 'avect0')):
+            if rng.random() < 0.15:
+                raw = dust_cell(rng, st['v'])
+                if raw is not None:
+                    st['vraw'] = raw
         steps.append(st)
         sh.apply(st)
 
@@ -1321,8 +1400,13 @@ def gen_history(rng, oracle=False):
     return {'op': 'seq', 'k': k, 'steps': steps}
 
 
+def _raw(st):
+    """the cell as handed to atomman / sent to the driver: with its residue entries, if the step has any."""
+    return st.get('vraw', st['v'])
+
+
 def _boxset_kwargs(st):
-    via, v, o = st['via'], st['v'], st['o']
+    via, v, o = st['via'], _raw(st), st['o']
     if via == 'vects':
         return {'vects': v, 'origin': o}
     if via == 'vects0':
@@ -1351,14 +1435,14 @@ class Live:
         import atomman as am
         d = st['do']
         if d == 'newbox':
-            return _call(lambda: self.boxes.append(_mk_box(am, st['v'], st['o'])))
+            return _call(lambda: self.boxes.append(_mk_box(am, _raw(st), st['o'])))
         if d == 'newsys':
             def mk():
                 atoms = am.Atoms(pos=np.array(st['pos'], dtype=float).reshape(-1, 3))
                 self.systems.append(am.System(atoms=atoms, box=self.boxes[st['box']], pbc=_as_pbc(np, st['pbc'], st['form'])))
             return _call(mk)
         if d == 'boxvects':
-            return _call(lambda: setattr(self.boxes[st['box']], 'vects', np.array(st['v'], dtype=float)))
+            return _call(lambda: setattr(self.boxes[st['box']], 'vects', np.array(_raw(st), dtype=float)))
         if d == 'boxorigin':
             if st['via'] == 'attr':
                 return _call(lambda: setattr(self.boxes[st['box']], 'origin', list(st['o'])))
@@ -1454,17 +1538,17 @@ def history_lines(case):
         d = st['do']
         a = len(lines)
         if d == 'newbox':
-            lines.append(f"w newbox {_flat(st['v'])} {cm.frs(st['o'])}")
+            lines.append(f"w newbox {_flat(_raw(st))} {cm.frs(st['o'])}")
         elif d == 'newsys':
             lines.append(f"w newsys {st['box']} {_b(st['pbc'])} {len(st['pos'])} {_flat(st['pos'])}".strip())
         elif d == 'boxvects':
-            lines.append(f"w boxvects {st['box']} {_flat(st['v'])}")
+            lines.append(f"w boxvects {st['box']} {_flat(_raw(st))}")
         elif d == 'boxorigin':
             lines.append(f"w boxorigin {st['box']} {cm.frs(st['o'])}")
         elif d == 'boxset':
-            lines.append(f"w boxset {st['box']} {_flat(st['v'])} {cm.frs(st['o'])}")
+            lines.append(f"w boxset {st['box']} {_flat(_raw(st))} {cm.frs(st['o'])}")
         elif d == 'sysboxset':
-            lines.append(f"w sysboxset {st['sys']} {_flat(st['v'])} {cm.frs(st['o'])} {1 if st['scale'] else 0}")
+            lines.append(f"w sysboxset {st['sys']} {_flat(_raw(st))} {cm.frs(st['o'])} {1 if st['scale'] else 0}")
         elif d == 'pbcset':
             lines.append(f"w pbcset {st['sys']} {_b(st['pbc'])}")
         elif d == 'pbcedit':
@@ -1690,6 +1774,7 @@ def correspond(ctx):
                       'c': rng.choice([None, 1, 2, 3, -1, -2, -3, 0, 5, -7])})
     run_cases(ctx, cases)
     correspond_big(ctx, rng)
+    correspond_clean(ctx, rng)
     ties = [t for c in cases for t in c.get('_ties', [])]
     ctx.extra['tolerance_pairs'] = len(ties)
     ctx.extra['tolerance_pairs_exempt_as_ties'] = sum(ties)
@@ -2613,6 +2698,14 @@ def replay(ctx, payload):
         print('replay argument handling:', 'still fails' if ctx.violations else 'passes now')
         for f in ctx.violations[:3]:
             print('  ', f.what[:600])
+        return
+    if r.get('op') == 'clean':
+        import numpy as np
+        import atomman as am
+        c = r['case']
+        got = [float(x) for x in am.Box(vects=np.array(c['v']), origin=c['o']).vects.ravel()]
+        want = [x for rw in clean_cell_exact(c['v']) for x in rw]
+        print('replay clean-up of Box.vects:', 'still fails' if got != want else 'passes now', got, want)
         return
     if r.get('op') == 'refusal':
         check_refusal(ctx, r['case'], stats)
